@@ -177,13 +177,22 @@ def _run_check(cid, tier, spec, workdir, tmp, t_start):
     deadline = int(os.environ.get("VERIF_DEADLINE_S", spec.get("deadline_s", {}).get(tier, 600)))
     hard_timeout = deadline + int(spec.get("grace_s", 120))
     seed = int(os.environ.get("VERIF_SEED", "0"))
-    procs = []
-    for i in range(shards):
+    # process pool: at most NCPU shard processes at a time (a check may ask for more shards than
+    # cores: exploration harnesses leak goroutines of the code under test per execution, so many
+    # short-lived processes beat few long-lived ones)
+    parallel = int(os.environ.get("VERIF_PARALLEL", spec.get("parallel", NCPU)))
+    failed_shards = []
+    t0 = time.time()
+    pending = list(range(shards))
+    running = []  # (i, proc, logfile, started)
+
+    def launch(i):
+        left = max(5, int(deadline - (time.time() - t0)))
         env = dict(os.environ)
         env.update({
             "VERIF_TIER": tier, "VERIF_SHARD": "%d/%d" % (i, shards), "VERIF_SEED": str(seed),
             "VERIF_OUT": os.path.join(workdir, "frag-%d.json" % i),
-            "VERIF_TMP": tmp, "VERIF_DEADLINE_S": str(deadline),
+            "VERIF_TMP": tmp, "VERIF_DEADLINE_S": str(left),
             "VERIF_REPO": REPO, "VERIF_DIR": VERIF,
             "GOMAXPROCS": str(spec.get("gomaxprocs", 2)),
             "GOTRACEBACK": "all",
@@ -193,26 +202,35 @@ def _run_check(cid, tier, spec, workdir, tmp, t_start):
         log = open(os.path.join(workdir, "shard-%d.log" % i), "w")
         args = [binary, "-test.run", "^TestCheck$", "-test.timeout", "0", "-test.count", "1"]
         p = subprocess.Popen(args, cwd=workdir, env=env, stdout=log, stderr=subprocess.STDOUT)
-        procs.append((i, p, log))
-    failed_shards = []
-    t0 = time.time()
-    for i, p, log in procs:
-        remaining = max(1, hard_timeout - (time.time() - t0))
-        try:
-            rc = p.wait(timeout=remaining)
-        except subprocess.TimeoutExpired:
-            # ask the Go runtime for a goroutine dump first (lands in the shard log)
-            try:
-                p.send_signal(3)
-                p.wait(timeout=10)
-            except Exception:
-                pass
-            p.kill()
-            p.wait()
-            rc = -9
+        running.append((i, p, log, time.time()))
+
+    def reap(i, p, log, rc):
         log.close()
         if rc != 0 or not os.path.exists(os.path.join(workdir, "frag-%d.json" % i)):
             failed_shards.append((i, rc))
+
+    while pending or running:
+        while pending and len(running) < parallel:
+            launch(pending.pop(0))
+        time.sleep(0.05)
+        still = []
+        for (i, p, log, st) in running:
+            rc = p.poll()
+            if rc is None and time.time() - t0 > hard_timeout:
+                # ask the Go runtime for a goroutine dump first (lands in the shard log)
+                try:
+                    p.send_signal(3)
+                    p.wait(timeout=10)
+                except Exception:
+                    pass
+                p.kill()
+                p.wait()
+                rc = -9
+            if rc is None:
+                still.append((i, p, log, st))
+            else:
+                reap(i, p, log, rc)
+        running[:] = still
     frags = []
     for i in range(shards):
         fp = os.path.join(workdir, "frag-%d.json" % i)
@@ -221,10 +239,10 @@ def _run_check(cid, tier, spec, workdir, tmp, t_start):
                 frags.append(json.load(open(fp)))
             except Exception as e:  # noqa
                 failed_shards.append((i, "badjson"))
-    return merge_and_report(cid, tier, spec, frags, failed_shards, workdir, seed, build_s, t_start, shards)
+    return merge_and_report(cid, tier, spec, frags, failed_shards, workdir, seed, build_s, t_start, shards, tmp)
 
 
-def merge_and_report(cid, tier, spec, frags, failed_shards, workdir, seed, build_s, t_start, shards):
+def merge_and_report(cid, tier, spec, frags, failed_shards, workdir, seed, build_s, t_start, shards, tmp=None):
     known = load_known()
     cov = {"evaluations": 0, "distinct_nontrivial": 0, "states": 0, "transitions": 0,
            "traces_validated_against_impl": 0}
@@ -300,9 +318,50 @@ def merge_and_report(cid, tier, spec, frags, failed_shards, workdir, seed, build
         else:
             lines.append("HARNESS-ERROR shard %d rc=%s log=%s" % (i, code, keep))
             crash_rc = 2
+    race_info = None
+    if spec.get("race_pass"):
+        # separate free-running pass of the same harness bodies under the race detector (a
+        # cooperative scheduler's hand-offs are happens-before edges that would blind it)
+        secs = int(spec["race_pass"].get(tier, 20))
+        rbin, rbuild = build_harness(cid, spec, workdir, race=True)
+        env = dict(os.environ)
+        env.update({"VERIF_MODE": "race", "VERIF_RACE_S": str(secs), "VERIF_TMP": tmp, "VERIF_REPO": REPO,
+                    "VERIF_DIR": VERIF, "GOMAXPROCS": "8", "GORACE": "halt_on_error=0 history_size=5"})
+        rlog = os.path.join(workdir, "race.log")
+        t1 = time.time()
+        with open(rlog, "w") as lf:
+            try:
+                rp = subprocess.run([rbin, "-test.run", "^TestCheck$", "-test.timeout", "0", "-test.count", "1"],
+                                    cwd=workdir, env=env, stdout=lf, stderr=subprocess.STDOUT, timeout=secs + 300)
+                rrc = rp.returncode
+            except subprocess.TimeoutExpired:
+                rrc = -9
+        txt = open(rlog, errors="replace").read()
+        nraces = txt.count("WARNING: DATA RACE")
+        done = re.search(r"RACE-PASS-DONE iterations=(\d+)", txt)
+        race_info = {"seconds": secs, "iterations": int(done.group(1)) if done else 0, "data_races": nraces,
+                     "wall_s": round(time.time() - t1, 1), "build_s": round(rbuild, 1)}
+        bad = nraces > 0 or "RACE-PASS-HANG" in txt or "RACE-PASS-PANIC" in txt or (rrc != 0 and not done)
+        if bad:
+            os.makedirs(rdir, exist_ok=True)
+            keep = os.path.join(rdir, "race-pass.log")
+            with open(keep, "w") as f:
+                f.write(txt if len(txt) <= 400000 else txt[:200000] + "\n...[cut]...\n" + txt[-200000:])
+            what = "data race" if nraces else ("hang" if "RACE-PASS-HANG" in txt else ("panic" if "RACE-PASS-PANIC" in txt or "panic:" in txt else "failed (rc=%s)" % rrc))
+            # identify the race by the first pair of functions reported
+            m = re.search(r"WARNING: DATA RACE\n(?:Read|Write) at .*?\n  (\S+)\(\)\n.*?\n\nPrevious (?:read|write) at .*?\n  (\S+)\(\)", txt, re.S)
+            sig = "%s race-pass %s" % (cid, what) + (" %s / %s" % (m.group(1), m.group(2)) if m else "")
+            if (cid, sig) in known:
+                lines.append("KNOWN-FINDING: property=%s %s — %s" % (cid, sig, known[(cid, sig)]))
+            else:
+                lines.append("VIOLATION property=%s replay=%s" % (cid, keep))
+                lines.append("  signature: " + sig)
+                rc = 1
     wall = time.time() - t_start
     rule = spec.get("rule", "")
     coverage = dict(cov)
+    if race_info:
+        coverage["race_pass"] = race_info
     coverage.update({
         "rule": rule, "samples": samples if samples else ["<none>"], "exhaustive": bool(exhaustive and not failed_shards),
         "distinct_outcomes": len(outcomes),
